@@ -1167,8 +1167,10 @@ Definition first_failure (A : nfa) (ranges : list (N * N)) : option (list N) :=
 Definition phase_failures (A : nfa) (ranges : list (N * N)) : list (option (list N)) :=
   [find_short A ranges 1; find_cp A ranges; find_trie A].
 
+(* wf_nfa is not demanded: none of the theorems needs it, and the compiler legitimately
+   leaves dangling InvalidState targets on the states of an empty class (compileNoMatch) *)
 Definition class_check (A : nfa) (ranges : list (N * N)) : bool :=
-  wf_nfa A && no_look A && match first_failure A ranges with None => true | Some _ => false end.
+  no_look A && match first_failure A ranges with None => true | Some _ => false end.
 
 Lemma scalar_lt r : is_scalar r = true -> (r < 0x110000)%N.
 Proof. unfold is_scalar. lia. Qed.
@@ -1178,7 +1180,7 @@ Theorem class_check_sound A ranges : class_check A ranges = true ->
   forall bs, all_bytes bs -> accepts A bs = spec_class_on_bytes ranges bs.
 Proof.
   unfold class_check, first_failure. intros H bs Hb.
-  apply andb_prop in H as [H Hff]. apply andb_prop in H as [_ Hnl].
+  apply andb_prop in H as [Hnl Hff].
   destruct (find_short A ranges 1) eqn:E1; [discriminate|].
   destruct (find_cp A ranges) eqn:E2; [discriminate|].
   destruct (find_trie A) eqn:E3; [discriminate|]. clear Hff.
@@ -1207,6 +1209,103 @@ Proof.
   intros H bs Hb. rewrite <- accepts_spec_nowf. now rewrite (class_check_sound A ranges H bs Hb).
 Qed.
 
+(* ------------------------------------------------------------------ the range splitter
+   nfa/compile.go: compileUTF8Range splits [lo, hi] by encoded length and hands each part
+   to compileUTF8{1,2,3,4}ByteRange; each produces alternatives "lead byte range, then
+   continuation byte ranges".  Modelled here: the 1-, 2- and 4-byte splitters (the 3-byte
+   splitter, with its per-lead and per-continuation enumeration, is not modelled). *)
+Definition bseq := list (N * N).
+Fixpoint in_seq (bs : list N) (s : bseq) : bool :=
+  match bs, s with
+  | [], [] => true
+  | b :: bt, (lo, hi) :: st => in_range lo hi b && in_seq bt st
+  | _, _ => false
+  end.
+Definition in_seqs (bs : list N) (ss : list bseq) : bool := existsb (in_seq bs) ss.
+
+(* nfa/compile.go: compileUTF81ByteRange *)
+Definition seqs1 (lo hi : N) : list bseq := [[(lo, hi)]].
+
+(* nfa/compile.go: compileUTF82ByteRange *)
+Definition seqs2 (lo hi : N) : list bseq :=
+  let loLead := (192 + lo / 64)%N in let loCont := (128 + lo mod 64)%N in
+  let hiLead := (192 + hi / 64)%N in let hiCont := (128 + hi mod 64)%N in
+  if (loLead =? hiLead)%N then [[(loLead, loLead); (loCont, hiCont)]]
+  else [[(loLead, loLead); (loCont, 191%N)]] ++
+       (if (loLead + 1 <? hiLead)%N then [[((loLead + 1)%N, (hiLead - 1)%N); (128%N, 191%N)]] else []) ++
+       [[(hiLead, hiLead); (128%N, hiCont)]].
+
+Theorem utf8_range1_correct lo hi : (lo <= hi)%N -> (hi <= 0x7F)%N ->
+  forall bs, in_seqs bs (seqs1 lo hi) = true <-> exists r, (lo <= r <= hi)%N /\ bs = encode r.
+Proof.
+  intros H1 H2 bs. unfold seqs1, in_seqs. cbn [existsb]. split.
+  - destruct bs as [|b [|b' t]]; cbn [in_seq]; unfold in_range; intros H; try lia.
+    exists b. split; [lia|]. unfold encode. replace (b <? 128)%N with true by lia. reflexivity.
+  - intros [r [Hr ->]]. unfold encode. replace (r <? 128)%N with true by lia. cbn [in_seq]. unfold in_range. lia.
+Qed.
+
+Theorem utf8_range2_correct lo hi : (0x80 <= lo)%N -> (lo <= hi)%N -> (hi <= 0x7FF)%N ->
+  forall bs, in_seqs bs (seqs2 lo hi) = true <-> exists r, (lo <= r <= hi)%N /\ bs = encode r.
+Proof.
+  intros H0 H1 H2 bs. split.
+  - destruct bs as [|b0 [|b1 [|b2 t]]].
+    + unfold seqs2, in_seqs. cbv zeta.
+      destruct (192 + lo / 64 =? 192 + hi / 64)%N; [cbn; discriminate|].
+      destruct (192 + lo / 64 + 1 <? 192 + hi / 64)%N; cbn; discriminate.
+    + unfold seqs2, in_seqs. cbv zeta.
+      destruct (192 + lo / 64 =? 192 + hi / 64)%N; [cbn [existsb in_seq]; rewrite ?andb_false_r; discriminate|].
+      destruct (192 + lo / 64 + 1 <? 192 + hi / 64)%N; cbn [app existsb in_seq]; rewrite ?andb_false_r; discriminate.
+    + intros H. exists ((b0 - 192) * 64 + (b1 - 128))%N.
+      unfold seqs2, in_seqs in H. cbv zeta in H. rewrite encode_arith.
+      destruct (192 + lo / 64 =? 192 + hi / 64)%N eqn:E1.
+      * cbn [existsb in_seq] in H. unfold in_range in H.
+        assert (Hb : (192 <= b0 <= 223 /\ 128 <= b1 <= 191)%N) by lia.
+        split; [lia|].
+        replace ((b0 - 192) * 64 + (b1 - 128) <? 128)%N with false by lia.
+        replace ((b0 - 192) * 64 + (b1 - 128) <? 2048)%N with true by lia.
+        f_equal; [lia|f_equal; lia].
+      * destruct (192 + lo / 64 + 1 <? 192 + hi / 64)%N eqn:E2; cbn [app existsb in_seq] in H; unfold in_range in H.
+        all: assert (Hb : (192 <= b0 <= 223 /\ 128 <= b1 <= 191)%N) by lia.
+        all: split; [lia|].
+        all: replace ((b0 - 192) * 64 + (b1 - 128) <? 128)%N with false by lia;
+             replace ((b0 - 192) * 64 + (b1 - 128) <? 2048)%N with true by lia.
+        all: f_equal; [lia|f_equal; lia].
+    + unfold seqs2, in_seqs. cbv zeta.
+      destruct (192 + lo / 64 =? 192 + hi / 64)%N; [cbn [existsb in_seq]; rewrite ?andb_false_r; discriminate|].
+      destruct (192 + lo / 64 + 1 <? 192 + hi / 64)%N; cbn [app existsb in_seq]; rewrite ?andb_false_r; discriminate.
+  - intros [r [Hr ->]]. rewrite encode_arith.
+    replace (r <? 128)%N with false by lia. replace (r <? 2048)%N with true by lia.
+    unfold seqs2, in_seqs. cbv zeta.
+    destruct (192 + lo / 64 =? 192 + hi / 64)%N eqn:E1.
+    + cbn [existsb in_seq]. unfold in_range. lia.
+    + destruct (192 + lo / 64 + 1 <? 192 + hi / 64)%N eqn:E2; cbn [app existsb in_seq]; unfold in_range; lia.
+Qed.
+
+(* nfa/compile.go: compileUTF84ByteRange — one sequence per lead byte; below the lead byte
+   the bounds lo and hi are ignored ("conservative approach") *)
+Definition seqs4 (lo hi : N) : list bseq :=
+  let hi := N.min hi 0x10FFFF in
+  let lo := N.max lo 0x10000 in
+  if (hi <? lo)%N then [] else
+  let loLead := (240 + lo / 262144)%N in
+  let hiLead := (240 + hi / 262144)%N in
+  map (fun i => let lead := (loLead + N.of_nat i)%N in
+                [(lead, lead);
+                 ((if (lead =? 240)%N then 144 else 128)%N, (if (lead =? 244)%N then 143 else 191)%N);
+                 (128%N, 191%N); (128%N, 191%N)])
+      (seq 0 (N.to_nat (hiLead + 1 - loLead))).
+
+(* the faithful model of the 4-byte splitter accepts encodings of runes outside [lo, hi]:
+   compiled for the single rune U+1F600 it accepts F0 90 80 80 = U+10000 *)
+Theorem utf8_range4_refuted : exists lo hi bs,
+  (0x10000 <= lo)%N /\ (lo <= hi)%N /\ (hi <= 0x10FFFF)%N /\
+  in_seqs bs (seqs4 lo hi) = true /\ ~ exists r, (lo <= r <= hi)%N /\ bs = encode r.
+Proof.
+  exists 0x1F600%N, 0x1F600%N, [240; 144; 128; 128]%N.
+  split; [lia|]. split; [lia|]. split; [lia|]. split; [vm_compute; reflexivity|].
+  intros [r [Hr He]]. assert (r = 0x1F600%N) by lia. subst r. vm_compute in He. discriminate.
+Qed.
+
 (* ------------------------------------------------------------------ case checker
    (correspondence run: the automaton dumped from the Go compiler with the rune ranges of
    the syntax node it was compiled from) *)
@@ -1220,7 +1319,7 @@ Definition mismatches (cs : list case) : list N :=
 (* (id, verdict, witness), the witness search evaluated once *)
 Definition run_case (c : case) : N * bool * option (list N) :=
   let w := first_failure (c_nfa c) (c_ranges c) in
-  (c_id c, wf_nfa (c_nfa c) && no_look (c_nfa c) && match w with None => true | Some _ => false end, w).
+  (c_id c, no_look (c_nfa c) && match w with None => true | Some _ => false end, w).
 
 Definition run_cases (cs : list case) : list (N * bool * option (list N)) := map run_case cs.
 
